@@ -170,4 +170,48 @@ theorem copy_independent_partial {α : Type} (w : World α) (a b : String) (f g 
   intro c hca hcb
   simp [World.copy, World.mutate, hca, hcb]
 
+/-- an operation of the handle-level model: mutate one handle, or (re)bind a handle to a copy of another -/
+inductive CopyOp (α : Type) where
+  | mutate (h : String) (f : α → α)
+  | copy (src dst : String)
+
+def CopyOp.target {α} : CopyOp α → String
+  | .mutate h _ => h
+  | .copy _ dst => dst
+
+def World.step {α} (w : World α) : CopyOp α → World α
+  | .mutate h f => w.mutate h f
+  | .copy a b => w.copy a b
+
+def World.run {α} (w : World α) (ops : List (CopyOp α)) : World α := ops.foldl World.step w
+
+/-- **Non-interference over whole histories (value model).** Whatever sequence of mutations and copies is
+applied to *other* handles — the original, sibling copies, copies of copies, in any interleaving — a handle
+that is not the target of any of them keeps its value. (`_partial`: see the note above; the Go objects are
+only exercised, by the sibling experiments of mode c15.) -/
+theorem copy_noninterference_partial {α : Type} (b : String) (ops : List (CopyOp α))
+    (h : ∀ op ∈ ops, op.target ≠ b) (w : World α) : (w.run ops) b = w b := by
+  induction ops generalizing w with
+  | nil => rfl
+  | cons op rest ih =>
+    have hop : op.target ≠ b := h op (List.mem_cons_self ..)
+    have hrest : ∀ o ∈ rest, o.target ≠ b := fun o ho => h o (List.mem_cons_of_mem _ ho)
+    show (World.run (w.step op) rest) b = w b
+    rw [ih hrest]
+    cases op with
+    | mutate t f => simp [World.step, World.mutate, CopyOp.target] at hop ⊢; intro e; exact absurd e.symm hop
+    | copy a d => simp [World.step, World.copy, CopyOp.target] at hop ⊢; intro e; exact absurd e.symm hop
+
+/-- and the value of a handle is a function of how it was made: two runs that apply the same functions to
+the same starting value give the same value, whatever else the two worlds contain -/
+theorem value_determined_by_history_partial {α : Type} (w w' : World α) (a a' : String) (fs : List (α → α))
+    (h0 : w a = w' a') :
+    (w.run (fs.map (CopyOp.mutate a))) a = (w'.run (fs.map (CopyOp.mutate a'))) a' := by
+  induction fs generalizing w w' with
+  | nil => simpa [World.run] using h0
+  | cons f rest ih =>
+    simp only [List.map_cons, World.run, List.foldl_cons]
+    apply ih
+    simp [World.step, World.mutate, h0]
+
 end Zrnt.Proofs.C15
